@@ -109,6 +109,28 @@ Definition dom_ok (s : state) (o : rebase_opts) : bool :=
      | _ => false
      end.
 
+(** ** The processing order respects the dependencies (boolean form of [Proofs.C11Loop.valid_from]):
+    checked per case on the order the model computes with the implementation's algorithm. *)
+Fixpoint valid_fromb (G0 : graph) (pm0 : list (nat * rewrite)) (T done order : list nat) : bool :=
+  match order with
+  | [] => true
+  | x :: t =>
+      memn x T && negb (memn x done)
+      && forallb (fun p =>
+           (negb (memn p T) || memn p done)
+           && match pm_get pm0 p with
+              | Some r => forallb (fun t' => negb (memn t' T) || memn t' done) (new_parent_ids r)
+              | None => true
+              end) (c_parents (getc G0 x))
+      && valid_fromb G0 pm0 T (done ++ [x]) t
+  end.
+Definition order_valid (s : state) (o : rebase_opts) : bool :=
+  let T := find_descendants_for_rebase s (o_imm o) in
+  match order_commits_for_rebase (s_g s) (s_pm s) T with
+  | Ok order => valid_fromb (s_g s) (s_pm s) T [] order && forallb (fun x => memn x order) T
+  | _ => false
+  end.
+
 (** ** Known-finding class F5 ("replacement-pending-rebase"): a commit [x] that is to be rebased
     has a rewritten/abandoned parent [p] whose direct replacement [t] is itself a
     rewritten/abandoned key of parent_mapping, and following [t]'s replacements leads to a commit
@@ -289,8 +311,12 @@ Definition check_case (c : case) : N :=
     | _ => true
     end in
   let ok := okb c in
-  verdict (corr_views && corr_out && corr_graph) ok (negb ok && (known_F5 c || known_wc_root c))
+  let corr_order :=
+    negb (in_domain c) ||
+    match case_parts c with Some (s0, o, _) => order_valid s0 o | None => true end in
+  verdict (corr_views && corr_out && corr_graph && corr_order) ok (negb ok && (known_F5 c || known_wc_root c))
           (if negb corr_out then 1 else if negb corr_views then 2 else if negb corr_graph then 3
+           else if negb corr_order then 5
            else match case_parts c with
                 | Some (s0, o, v) => if N.eqb (k_outcome c) 2 then 20 else prop_detail s0 o (k_graph c) v
                 | None => 4
